@@ -1,8 +1,18 @@
 import Avfs.Conc.Theorems
 import Avfs.Conc.Facts
 import Avfs.Generated.Locks
+import Avfs.Conc.Allowed
+import Avfs.Lemmas.Lin
 /-
-  C06 — concurrent namespace operations are linearizable (proved part: operations that are ONE critical section).
+  C06 — concurrent namespace operations are linearizable.
+  Proved: (1) operations that are ONE critical section (OrefaFS Mkdir/MkdirAll/Remove/RemoveAll, MemIdm but AddUser);
+  (2) two-phase operations (unlocked walk, commit under the parent's lock) whose commit is the sequential specification
+  on the state it finds: any number of threads, calls and steps (`C06_two_phase_linearizable`), instantiated for MemFS
+  Mkdir / exclusive create / Remove on leaf names of directories that are not themselves removed or renamed during the
+  run (`C06_memfs_leaf_ops_linearizable`); the shape of the Go functions that makes the commit independent of the walk
+  is re-decided on the regenerated facts (`C06_commit_fresh_memfs`, `C06_stale_sites`).
+  Not proved (recorded findings): Link / Symlink / Rename / RemoveAll commits rely on the walk; calls below a directory
+  that another call removes (MemFS has no "dead directory" mark).
 -/
 namespace Avfs.Conc
 open Avfs.Generated
@@ -35,5 +45,58 @@ theorem C06_single_section_memidm :
 theorem C06_addUser_two_sections :
     (singleSection lockFns lockFacts "memidm" "MemIdm.AddUser" "idm#usrMu" true ||
      singleSection lockFns lockFacts "memidm" "MemIdm.AddUser" "idm#grpMu" false) = false := by decide +kernel
+
+/-! ### two-phase operations -/
+
+/-- Linearizability of two-phase operations, for every number of threads, every program and every schedule -/
+theorem C06_two_phase_linearizable {σ α ω ρ : Type} (impl : α → Lin.TwoPhase σ ω ρ) (spec : α → σ → σ × ρ) (I : σ → Prop)
+    (hI : ∀ a s, I s → I (spec a s).1)
+    (hW : ∀ a s r, I s → (impl a).walk s = .inl r → spec a s = (s, r))
+    (hC : ∀ a w s s0, I s → I s0 → (impl a).walk s0 = .inr w → (impl a).commit w s = spec a s)
+    (s : σ) (hs : I s) (progs : List (List α)) (sched : List Nat) :
+    (Lin.run impl (Lin.init s progs) sched).1.sh =
+      (Lin.seqRun spec s (fun _ => []) (Lin.run impl (Lin.init s progs) sched).2).1 ∧
+    (Lin.run impl (Lin.init s progs) sched).1.ths.length = progs.length ∧
+    (∀ t th, (Lin.run impl (Lin.init s progs) sched).1.ths[t]? = some th →
+      th.done = (Lin.seqRun spec s (fun _ => []) (Lin.run impl (Lin.init s progs) sched).2).2 t ∧
+      ∃ p, progs[t]? = some p ∧ Lin.callsOf t (Lin.run impl (Lin.init s progs) sched).2 ++ th.todo = p) :=
+  Lin.linearizable impl spec I hI hW hC s hs progs sched
+
+/-- MemFS Mkdir / OpenFile(O_CREATE|O_EXCL) / Remove on leaf names of a stable directory -/
+theorem C06_memfs_leaf_ops_linearizable (d : Lin.Dir) (progs : List (List Lin.DOp)) (sched : List Nat) :
+    (Lin.run (Lin.dimpl true) (Lin.init d progs) sched).1.sh =
+      (Lin.seqRun Lin.dspec d (fun _ => []) (Lin.run (Lin.dimpl true) (Lin.init d progs) sched).2).1 ∧
+    (∀ t th, (Lin.run (Lin.dimpl true) (Lin.init d progs) sched).1.ths[t]? = some th →
+      th.done = (Lin.seqRun Lin.dspec d (fun _ => []) (Lin.run (Lin.dimpl true) (Lin.init d progs) sched).2).2 t ∧
+      ∃ p, progs[t]? = some p ∧ Lin.callsOf t (Lin.run (Lin.dimpl true) (Lin.init d progs) sched).2 ++ th.todo = p) :=
+  Lin.memfs_leaf_ops_linearizable d progs sched
+
+/-- non-vacuity: a concrete three-thread run of the model decides all its calls -/
+example : ((Lin.run (Lin.dimpl true) (Lin.init Lin.staleDir [[.mkdir 3], [.remove 7], [.createExcl 3]]) [0, 2, 1, 0, 2, 1]).1.ths.map (·.done))
+    = [[.ok], [.ok], [.eexist]] := by decide
+
+/-- the tie to the Go source: Mkdir and Remove commit on what they find under the lock (walk, one commit lock, every
+    mutation preceded by a look-up under the lock, nothing captured by the walk used afterwards); OpenFile's creating
+    branch looks the entry up again before createFile -/
+theorem C06_commit_fresh_memfs :
+    ((["MemFS.Mkdir", "MemFS.Remove"].all (commitFresh lockFacts)) &&
+     commitFreshCreate lockFacts "MemFS.OpenFile" "child") = true := by decide +kernel
+
+/-- every other commit that relies on the walk is a listed site (recorded findings but OpenFile's open of an existing node) -/
+theorem C06_stale_sites : sameSet (staleSites lockFacts) expectedStale = true := by decide +kernel
+
+/-- the defect repaired in MemFS.Remove (it released the node captured by the walk): kernel-checked counter-schedule of
+    the old commit, and the same schedule with the repaired one -/
+theorem C06_stale_remove_not_linearizable :
+    ∀ log ∈ Lin.interleave2 [.remove 7] [.remove 7, .createExcl 7],
+      ¬ ((Lin.seqRun Lin.dspec Lin.staleDir (fun _ => []) log).1 =
+            (Lin.run (Lin.dimpl false) (Lin.init Lin.staleDir Lin.staleProgs) Lin.staleSched).1.sh ∧
+         (Lin.seqRun Lin.dspec Lin.staleDir (fun _ => []) log).2 0 = [.ok] ∧
+         (Lin.seqRun Lin.dspec Lin.staleDir (fun _ => []) log).2 1 = [.ok, .ok]) :=
+  Lin.stale_remove_not_linearizable
+
+theorem C06_fresh_remove_same_schedule :
+    AL.lookup 1 (Lin.run (Lin.dimpl true) (Lin.init Lin.staleDir Lin.staleProgs) Lin.staleSched).1.sh.nlink = some 1 :=
+  Lin.fresh_remove_same_schedule
 
 end Avfs.Conc
